@@ -393,11 +393,21 @@ func stmtSkeleton(p *pkgInfo, fd *ast.FuncDecl) []string {
 	return out
 }
 
+var syncTraceFuncs = []string{
+	"BlockDownloader.Run", "BlockDownloader.cancelAndWaitForComplete", "BlockDownloader.Stop", "BlockDownloader.Cancel",
+	"BlockDownloader.wasCancelled", "BlockDownloader.HandleBlock", "BlockDownloader.handleBlock",
+	"BlockManager.AddRequest", "BlockManager.Stop", "BlockManager.shutdown", "BlockManager.processRequest",
+	"BlockManager.cancelDownloaders", "BlockManager.requestBlock", "BlockManager.removeDownloader",
+	"BlockManager.markBlockRequestComplete",
+	"BitcoinNode.RequestBlock", "BitcoinNode.CancelBlockRequest", "BitcoinNode.handleBlock", "BitcoinNode.completeBlock",
+	"BitcoinNode.IsBusy", "BitcoinNode.Stop", "BitcoinNode.closeConnection",
+}
+
 // lockTrace lists, in source order, every mutex operation of a function (receiver.Method for Lock, Unlock,
 // RLock, RUnlock; "defer " prefix when deferred) together with the control structure they sit in ("if{", "else{",
 // "for{", "}") and the returns: the critical sections of the function as written. Used where a model treats a
 // critical section as one atomic step and the interleavings in question are below call granularity.
-func lockTrace(p *pkgInfo, fd *ast.FuncDecl) []string {
+func lockTrace(p *pkgInfo, fd *ast.FuncDecl, withChans bool) []string {
 	var out []string
 	if fd == nil || fd.Body == nil {
 		return out
@@ -424,10 +434,39 @@ func lockTrace(p *pkgInfo, fd *ast.FuncDecl) []string {
 		case *ast.ExprStmt:
 			if t := lockCall(x.X); t != "" {
 				out = append(out, t)
+			} else if withChans {
+				if u, ok := x.X.(*ast.UnaryExpr); ok && u.Op == token.ARROW {
+					out = append(out, "recv "+strings.Join(strings.Fields(src(p, u.X)), ""))
+				}
+				if call, ok := x.X.(*ast.CallExpr); ok {
+					if id, ok := call.Fun.(*ast.Ident); ok && id.Name == "close" && len(call.Args) == 1 {
+						out = append(out, "close "+strings.Join(strings.Fields(src(p, call.Args[0])), ""))
+					}
+				}
+			}
+		case *ast.SendStmt:
+			if withChans {
+				out = append(out, "send "+strings.Join(strings.Fields(src(p, x.Chan)), ""))
 			}
 		case *ast.DeferStmt:
 			if t := lockCall(x.Call); t != "" {
 				out = append(out, "defer "+t)
+			} else if fl, ok := x.Call.Fun.(*ast.FuncLit); ok {
+				n := len(out)
+				out = append(out, "defer{")
+				walk(fl.Body.List)
+				out = append(out, "}")
+				if len(out) == n+2 {
+					out = out[:n]
+				}
+			}
+		case *ast.GoStmt:
+			if fl, ok := x.Call.Fun.(*ast.FuncLit); ok {
+				out = append(out, "go{")
+				walk(fl.Body.List)
+				out = append(out, "}")
+			} else {
+				out = append(out, "go "+strings.Join(strings.Fields(src(p, x.Call.Fun)), ""))
 			}
 		case *ast.ReturnStmt:
 			out = append(out, "return")
@@ -481,6 +520,9 @@ func lockTrace(p *pkgInfo, fd *ast.FuncDecl) []string {
 			for _, c := range x.Body.List {
 				if cc, ok := c.(*ast.CommClause); ok {
 					out = append(out, "case{")
+					if withChans && cc.Comm != nil {
+						out = append(out, "comm "+strings.Join(strings.Fields(src(p, cc.Comm)), " "))
+					}
 					walk(cc.Body)
 					out = append(out, "}")
 				}
@@ -654,6 +696,7 @@ type facts struct {
 	Accept       []handlerEntry            `json:"accept_handlers"`
 	CheckOrder   []string                  `json:"process_header_check_order"`
 	CallOrders   map[string][]string       `json:"call_orders"`
+	SyncTraces   map[string][]string       `json:"sync_traces"`
 	LockShapes   map[string]string         `json:"lock_shapes"`
 	Fingerprints map[string]string         `json:"fingerprints"`
 	Missing      []string                  `json:"missing"`
@@ -670,7 +713,7 @@ func main() {
 	renv := pkgConsts(root)
 	henv := pkgConsts(hdrs)
 
-	fx := &facts{Ints: map[string]int64{}, Strs: map[string]string{}, CallOrders: map[string][]string{},
+	fx := &facts{Ints: map[string]int64{}, Strs: map[string]string{}, CallOrders: map[string][]string{}, SyncTraces: map[string][]string{},
 		LockShapes: map[string]string{}, Fingerprints: map[string]string{}}
 
 	geti := func(env map[string]int64, name, as string) {
@@ -1008,9 +1051,17 @@ func main() {
 	// atomic step; races between them are below the call granularity of the correspondence)
 	for _, fn := range []string{"AddTxID", "AddTx", "GetTxRequests"} {
 		if fd := root.funcs["TxManager."+fn]; fd != nil {
-			fx.CallOrders["locks_"+fn] = lockTrace(root, fd)
+			fx.CallOrders["locks_"+fn] = lockTrace(root, fd, false)
 		} else {
 			miss("TxManager." + fn)
+		}
+	}
+	// C16 / C04 / C05: the mutex and channel operations of the block download machinery, in source order
+	for _, fn := range syncTraceFuncs {
+		if fd := root.funcs[fn]; fd != nil {
+			fx.SyncTraces[fn] = lockTrace(root, fd, true)
+		} else {
+			miss(fn)
 		}
 	}
 	// C04: the order of the merkle / processor / store calls in BlockDownloader.handleBlock, and the
@@ -1178,6 +1229,23 @@ func writeLean(path string, fx *facts) {
 	for _, k := range []string{"AddTxID", "AddTx", "GetTxRequests"} {
 		wrList("locks_"+k, fx.CallOrders["locks_"+k])
 	}
+	b.WriteString("\n/-- mutex and channel operations (with the control structure and returns around them) of the block download machinery, in source order. -/\n")
+	b.WriteString("def syncTraces : List (String × List String) := [\n")
+	for i, k := range syncTraceFuncs {
+		b.WriteString("  (" + leanStr(k) + ", [")
+		for j, x := range fx.SyncTraces[k] {
+			if j > 0 {
+				b.WriteString(", ")
+			}
+			b.WriteString(leanStr(x))
+		}
+		b.WriteString("])")
+		if i+1 < len(syncTraceFuncs) {
+			b.WriteString(",")
+		}
+		b.WriteString("\n")
+	}
+	b.WriteString("]\n")
 	b.WriteString("\n/-- exported methods of the single-mutex components and their lock shape. -/\n")
 	b.WriteString("def lockShapes : List (String × String) := [\n")
 	keys = keys[:0]
